@@ -253,7 +253,7 @@ def run(ctx):
     from rules import C09 as _c09
     from ovsa.engine import Ctx as _Ctx
     sub9 = _Ctx("C09", prog, ctx.root, "quick")
-    _c09.run(sub9)
+    getattr(_c09, "_run_base", _c09.run)(sub9)
     n9 = 0
     for i_ in sub9.instances:
         if i_["rule"] == "R9.2" and "failing=" in i_["inst"] and not i_["inst"].endswith("failing=None"):
